@@ -14,17 +14,12 @@ Open Scope Z_scope.
 Theorem C15_eq_refl : forall v, no_nan v = true -> wf v = true -> equals v v = true.
 Proof. exact equals_refl. Qed.
 
-(* The full statement "== is symmetric" is false of the code: byte_slice("a") == "a", not conversely. *)
-Theorem C15_eq_sym_refuted : exists a b, no_nan a = true /\ no_nan b = true /\ wf a = true /\ wf b = true /\
-  equals a b = true /\ equals b a = false.
-Proof. exists (VBytes [97]), (VStr [97]). vm_compute. repeat split; reflexivity. Qed.
-
-(* Outside that class (a byte_slice somewhere in one operand and a string somewhere in the other),
-   == is symmetric, at any nesting depth, across all types. *)
-Theorem C15_eq_sym_guarded : forall a b,
-  no_nan a = true -> no_nan b = true -> wf a = true -> wf b = true -> sym_guard a b = true ->
+(* == is symmetric, for all values of all types at any nesting depth (string and byte_slice compare
+   their bytes in both directions since fix 786c921). *)
+Theorem C15_eq_sym : forall a b,
+  no_nan a = true -> no_nan b = true -> wf a = true -> wf b = true ->
   equals a b = equals b a.
-Proof. exact equals_sym_guarded. Qed.
+Proof. exact equals_sym. Qed.
 
 (* == is transitive within every scalar type (nil, bool, int, float, byte, string, byte_slice, error). *)
 Theorem C15_eq_trans_same_type : forall a b c,
@@ -76,6 +71,9 @@ Theorem C15_total_preorder_bool : total_preorder_on (fun v => has_oty OBool v = 
 Proof. exact (oty_total_preorder OBool). Qed.
 Theorem C15_total_preorder_list : forall t, total_preorder_on (fun v => has_oty (OList t) v = true).
 Proof. exact (fun t => oty_total_preorder (OList t)). Qed.
+(* strings and byte_slices together: one total preorder by their bytes, agreeing with == across the two types *)
+Theorem C15_total_preorder_text : total_preorder_on (fun v => is_text v = true).
+Proof. exact text_total_preorder. Qed.
 
 (* The same laws in the operators' terms: <= is reflexive, transitive and total, < is its strict part,
    > and >= are the converses, and a <= b <= a exactly when a == b. *)
@@ -139,13 +137,19 @@ Theorem C15_set_single_slot : forall s a b ka kb,
   equals a b = true -> length (set_add b (set_add a s)) = length (set_add a s).
 Proof. exact set_single_slot. Qed.
 
-(* x in list / x in map: exactly iterating and comparing with ==. *)
+(* x in list: exactly iterating and comparing with ==. *)
 Theorem C15_in_agrees_list : forall l x, contains (VList l) x = Some (existsb (fun v => equals v x) l).
 Proof. exact contains_list. Qed.
 
-Theorem C15_in_agrees_map : forall m x,
+(* x in map: the same for every x that is not a byte_slice ... *)
+Theorem C15_in_agrees_map : forall m x, is_bytes x = false ->
   contains (VMap m) x = Some (existsb (fun kv => equals (VStr (fst kv)) x) m).
 Proof. exact contains_map. Qed.
+
+(* ... a byte_slice is == to the string key with its bytes, but map membership asks for a string. *)
+Theorem C15_in_map_refuted : exists m x k,
+  In k (map fst m) /\ equals (VStr k) x = true /\ contains (VMap m) x = Some false.
+Proof. exists [([97], VInt 1)], (VBytes [97]), [97]. vm_compute. repeat split; auto. Qed.
 
 (* x in set goes by hash key; it does not agree with iterating and comparing across types: 1 in {1.0}. *)
 Theorem C15_in_set_refuted : exists s x v,
@@ -155,8 +159,8 @@ Proof.
   vm_compute. repeat split; auto.
 Qed.
 
-(* It does whenever no member is of another numeric type than x, or a byte_slice against a string x
-   (in particular for every x of the members' own type). *)
+(* It does whenever no member is of another numeric type than x, or a byte_slice against a string x or a
+   string against a byte_slice x (in particular for every x of the members' own type). *)
 Theorem C15_in_agrees_set_guarded : forall s x,
   hkeys_nodup s = true -> forallb no_nan s = true -> no_nan x = true -> set_in_guard s x = true ->
   contains (VSet s) x = Some (existsb (fun v => equals v x) s).
@@ -206,8 +210,9 @@ Example C15_hyp_int_list : has_oty (OList OInt) (VList [VInt 3; VInt (-1)]) = tr
 Proof. reflexivity. Qed.
 Example C15_hyp_float_no_nan : has_oty OFloat (VFloat true 0) = true /\ has_oty OFloat (VFloat false 9221120237041090560) = false.
 Proof. split; reflexivity. Qed.
-Example C15_sym_guard_sat : sym_guard (VList [VInt 1; VStr [97]]) (VList [VFloat false 4607182418800017408; VStr [97]]) = true.
-Proof. reflexivity. Qed.
+Example C15_sym_text : equals (VStr [97]) (VBytes [97]) = true /\ equals (VBytes [97]) (VStr [97]) = true /\
+                        vcompare (VStr [97]) (VBytes [98]) = Some Lt /\ vcompare (VBytes [98]) (VStr [97]) = Some Gt.
+Proof. vm_compute. repeat split; reflexivity. Qed.
 Example C15_trans_guard_sat : trans_guard (VInt 1) (VFloat false 4607182418800017408) (VFloat false 4607182418800017408) = true.
 Proof. reflexivity. Qed.
 Example C15_num_ok_sat : num_ok (VInt 9223372036854775807) = true /\ num_ok (VFloat true 9218868437227405312) = true.
